@@ -57,6 +57,11 @@ class Registry:
         self.model_effects = {}
         self._classinfo = {}
 
+    # Dyn mode is switched on by dyn.install(reg); a unit opts out with `unit.dyn = False` (strict typed mode)
+    @property
+    def dyn(self): return getattr(self, '_dyn', False) and getattr(getattr(self, 'current_unit', None), 'dyn', True)
+    @dyn.setter
+    def dyn(self, v): self._dyn = v
     def add(self, u):
         self.units[u.dotted] = u; return u
     def model(self, *names):
